@@ -202,7 +202,49 @@ def gen(tier, rng, scale):
         wf = not rng.chance(1, 4)
         text, lookups = _gen_file(rng, wf)
         cases.append({"text": text, "items": lookups, "seed": rng.below(2**32), "wf_intended": wf})
+    # files larger than the 1 MiB chunks in which a symbol map indexes a file itself (make_index_storage): described by a few numbers, written out
+    # only while they are evaluated.  These do not go through Coq (a 1.5 MB byte list is too much for a case file): the verdict is the property's
+    # own equalities as the driver computes them (all partitions give the same index bytes, the index round-trips, stored-index lookups equal
+    # self-indexed lookups) plus a direct reading of the generated text for every looked-up address.
+    brng = rng.fork("big")
+    for _ in range((2 if quick else 12) * scale):
+        desc = {"nfunc": brng.range(9000, 16000), "seed": brng.below(2**32), "eol": brng.choice(["\n", "\r\n"]), "final_newline": brng.chance(2, 3)}
+        _, funcs = _big_text(desc)
+        lookups = []
+        for k in sorted(set([0, 1, len(funcs) - 1, len(funcs) // 2] + [brng.below(len(funcs)) for _ in range(60)])):
+            a, size = funcs[k][0], funcs[k][1]
+            lookups += [a, a + size - 1, a + brng.below(size)]
+        cases.append({"big": desc, "items": sorted(set(lookups)), "seed": brng.below(2**32)})
     return cases
+
+
+def _big_text(desc):
+    """(text, [(address, size, name, [(line address, size, line, file index)])]) of a large well-formed file: FILE and INLINE_ORIGIN records, then FUNC
+    blocks whose line records cover the whole function"""
+    r = K.SplitMix64(desc["seed"])
+    files = ["/src/big/file%d.c" % i for i in range(7)]
+    lines = ["MODULE Linux x86_64 BE4E976C325246EE9D6B7847A670B2A90 big-module"]
+    lines += ["FILE %d %s" % (i, f) for i, f in enumerate(files)]
+    funcs = []
+    addr = 0x1000
+    for k in range(desc["nfunc"]):
+        size = r.range(4, 0x40)
+        name = "function_number_%d_with_a_long_descriptive_name(int, char const*, unsigned long)" % k
+        lines.append("FUNC %x %x %x %s" % (addr, size, r.below(16), name))
+        recs, la = [], addr
+        while la < addr + size:
+            ls = min(r.range(1, 12), addr + size - la)
+            recs.append((la, ls, r.below(5000), r.below(len(files))))
+            lines.append("%x %x %d %d" % recs[-1])
+            la += ls
+        funcs.append((addr, size, name, recs))
+        addr += size + r.choice([0, 0, 4, 0x20])
+        if r.chance(1, 50):
+            lines.append("PUBLIC %x 0 public_symbol_%d" % (addr, k))
+            funcs.append((addr, None, "public_symbol_%d" % k, []))
+            addr += 8
+    text = desc["eol"].join(lines) + (desc["eol"] if desc["final_newline"] else "")
+    return text, [f for f in funcs if f[1] is not None]
 
 
 def with_items(case, items):
@@ -241,12 +283,84 @@ def _parse_lookup(tok):
     return "(LSome %s %s %s %s)" % (addr, "None" if size == "-" else "(Some %s)" % size, bs(name), frames)
 
 
+def _hexs(x):
+    return "x" + x.encode("latin-1").hex()
+
+
+def _evaluate_big(cases, binp):
+    d = os.path.join(K.SCRATCH, "c10big_%d" % os.getpid())
+    os.makedirs(d, exist_ok=True)
+    st = _stats.setdefault("large_files", {"files": 0, "bytes": 0, "lookups": 0})
+    try:
+        lines, tables = [], []
+        for i, c in enumerate(cases):
+            text, funcs = _big_text(c["big"])
+            p = os.path.join(d, "big%d.sym" % i)
+            with open(p, "wb") as f:
+                f.write(text.encode("latin-1"))
+            st["files"] += 1
+            st["bytes"] += len(text)
+            st["lookups"] += len(c["items"])
+            tables.append(funcs)
+            lines.append("%s %d %d %s" % (p, c["seed"], 3, " ".join(str(a) for a in c["items"])))
+        rc, outl, err = K.run_lines(binp, ["bp"], lines, timeout=3000)
+    finally:
+        shutil.rmtree(d, ignore_errors=True)
+    if rc != 0 or len(outl) != len(cases):
+        raise K.TieBroken("h_symbols bp failed on the large files (rc=%s, %d/%d lines): %s" % (rc, len(outl), len(cases), err[-500:]))
+    out = []
+    for c, funcs, l in zip(cases, tables, outl):
+        if l.strip() == "PANIC":
+            c["_out"] = "samply-symbols panicked on this .sym file"
+            out.append(12)
+            continue
+        head, _, rest = l.partition(" | ")
+        kv = dict(x.split("=", 1) for x in head.split())
+        lks = rest.split(" | ") if rest.strip() else []
+        bad = []
+        if kv.get("EQ") != "1":
+            bad.append("index bytes differ between partitions")
+        if kv.get("RT") != "1":
+            bad.append("the index does not round-trip")
+        if kv.get("LKEQ") != "1":
+            bad.append("lookups through the stored index differ from lookups through the self-made index")
+        starts = [f[0] for f in funcs]
+        import bisect
+        if len(lks) != len(c["items"]):
+            bad.append("no symbol map (%s)" % rest[:40])
+        else:
+            files = ["/src/big/file%d.c" % i for i in range(7)]
+            for a, got in zip(c["items"], lks):
+                k = bisect.bisect_right(starts, a) - 1
+                want = "N"
+                if k >= 0 and a < funcs[k][0] + funcs[k][1]:
+                    fa, fs, name, recs = funcs[k]
+                    rec = [r for r in recs if r[0] <= a < r[0] + r[1]][0]
+                    want = "S %d %d %s [%s@%s:%d]" % (fa, fs, _hexs(name), _hexs(name), _hexs(files[rec[3]]), rec[2])
+                if got.strip() != want:
+                    bad.append("lookup %d: got %s, the text says %s" % (a, got.strip()[:200], want[:200]))
+                    break
+        if bad:
+            c["_out"] = "; ".join(bad)[:600]
+        out.append(12 if bad else 10)
+    return out
+
+
 def evaluate(cases):
     if not cases:
         return []
     ok, log, bindir = K.cargo_build("h_symbols")
     if not ok:
         raise K.TieBroken("harness h_symbols does not build against the current tree:\n" + log[-1500:])
+    big = [(i, c) for i, c in enumerate(cases) if c.get("big")]
+    if big:
+        out = [None] * len(cases)
+        for (i, _), v in zip(big, _evaluate_big([c for _, c in big], os.path.join(bindir, "h_symbols"))):
+            out[i] = v
+        rest = [(i, c) for i, c in enumerate(cases) if not c.get("big")]
+        for (i, _), v in zip(rest, evaluate([c for _, c in rest])):
+            out[i] = v
+        return out
     d = os.path.join(K.SCRATCH, "c10_%d" % os.getpid())
     os.makedirs(d, exist_ok=True)
     try:
@@ -376,6 +490,11 @@ def known(case):
 
 
 def describe(case):
+    if case.get("big"):
+        d = {"large_file": case["big"], "how": "vlib/c10.py::_big_text(large_file) writes the .sym text", "lookup_addresses": case["items"][:20]}
+        if "_out" in case:
+            d["error"] = case["_out"]
+        return d
     d = {"sym_text": case["text"][:600], "bytes": len(case["text"]), "lookup_addresses": case["items"][:20]}
     if "_out" in case:
         d["error"] = case["_out"]
@@ -386,6 +505,8 @@ def distribution(cases):
     d = {"wellformed_intended": 0, "crlf": 0, "no_final_newline": 0, "size_hist": {}, "lookups": 0}
     d.update(_stats)
     for c in cases:
+        if c.get("big"):
+            continue
         d["wellformed_intended"] += 1 if c.get("wf_intended") else 0
         d["crlf"] += 1 if "\r\n" in c["text"] else 0
         d["no_final_newline"] += 0 if c["text"].endswith("\n") else 1
